@@ -329,7 +329,18 @@ func runTStruct(id string, toks []string) (res string) {
 		if st != "" {
 			return "enc=" + st
 		}
-		return "enc=" + hx(enc) + " dec=" + unmarshalGuard(t, enc)
+		encHex := hx(enc)
+		res := "enc=" + encHex + " dec=" + unmarshalGuard(t, enc)
+		// the bytes a caller got from Marshal stay what they were while the caller marshals other values
+		marshalGuard(reflect.New(t).Elem().Interface())
+		marshalGuard(struct {
+			S string `tlv8:"1"`
+			N uint32 `tlv8:"2"`
+		}{"retained by the caller?", 0xfeedface})
+		if hx(enc) != encHex {
+			res += " retained=changed"
+		}
+		return res
 	case "un":
 		t := typeOfDesc(toks[1])
 		var b []byte
